@@ -177,7 +177,7 @@ def _c06(prop, tier, seed, t0):
                            extra=["--reps", "4"])
     shards = vlib.split_file(allc, 8 if tier == "quick" else 32, wd, "rep")
     merged = []
-    nproc = 3
+    nproc = 5 if tier == "quick" else 6
     for sh in shards:
         traces = []
         for pi in range(nproc):      # separate processes: different hasher seeds and addresses
@@ -223,7 +223,7 @@ def _c06(prop, tier, seed, t0):
 
 CHECKS["C06"] = _c06
 check.NONTRIVIAL["C06"] = ("paired", "a run compared with the previous run of the same problem (same process or another process)")
-META["C06"] = _m("Each generated problem is solved 4 times in one process on fresh solvers and again in 2 further processes (different hasher seeds and addresses); the 12 executions of a problem are placed side by side in one trace and TLC requires every execution to show the same verdict, solution sequence, rendered message and provider call sequence as its predecessor.", "6 C06", "TLA+ trace validation (TLC) of side-by-side executions (pair rule in Trace_Solve.tla)",
+META["C06"] = _m("Each generated problem is solved 4 times in one process on fresh solvers and again in 4 (thorough: 5) further processes (different hasher seeds and addresses); the 20 (24) executions of a problem are placed side by side in one trace and TLC requires every execution to show the same verdict, solution sequence, rendered message and provider call sequence as its predecessor.", "6 C06", "TLA+ trace validation (TLC) of side-by-side executions (pair rule in Trace_Solve.tla)",
                  note="Decided over sampled pairs of executions: TLC cannot enumerate hash seeds. Trusted: each process really gets fresh ahash seeds (default runtime-rng).")
 
 
